@@ -15,6 +15,10 @@ CONSTANTS
   StrideOff = 0
   ReorderMode = "bylayout"
   ZeroGuard = "guarded"
+  WSNum = 1
+  WSDen = 1
+  WScale <- MCWScale
+  SummarySource = "gathered"
   Gens = {1,2,3}
   Ordered = TRUE
   Export = FALSE
@@ -26,6 +30,7 @@ INVARIANT ScheduleIndependent
 INVARIANT NoError
 INVARIANT DirectVarLemma
 INVARIANT ZeroWeightLemma
+INVARIANT WeightScaleLemma
 INVARIANT FitsInv
 CONSTRAINT Emit
 CHECK_DEADLOCK FALSE
